@@ -45,7 +45,27 @@ def get_subs(mod, tier):
     return quick + extra
 
 
+def _cleanup_scratch():
+    """Pool workers leave through os._exit (no atexit handlers): remove the
+    worker's scratch directory explicitly."""
+    try:
+        import shutil
+        import fsx
+        if fsx._BASE[0]:
+            shutil.rmtree(fsx._BASE[0], True)
+            fsx._BASE[0] = None
+    except Exception:       # noqa
+        pass
+
+
 def _job(args):
+    try:
+        return _job_inner(args)
+    finally:
+        _cleanup_scratch()
+
+
+def _job_inner(args):
     modname, idx, tier, twin = args
     t0 = time.monotonic()
     try:
